@@ -133,7 +133,7 @@ def gauss_line(G, mk, V, edges, X, sigma, add, fails):
 
 def builder_lines(G, V, edges, A, add, fails):
     """wgraph_from_adjacency / wgraph_from_coo_matrix (coo keeps rows as given, csr merges) on the data of a graph"""
-    from scipy.sparse import coo_matrix, csr_matrix
+    from scipy.sparse import coo_matrix, csc_matrix, csr_matrix
     from harness.props.C11 import gobs, gedges, dense
 
     def one(name, line, f, want_dense, keep_rows=None):
@@ -156,6 +156,15 @@ def builder_lines(G, V, edges, A, add, fails):
             lambda: G.wgraph_from_coo_matrix(coo_matrix((w, (i, j)), shape=(V, V))), A, keep_rows=list(edges))
         one("wgraph_from_coo_matrix(csr)", f"fromcsr {gline(V, edges)}",
             lambda: G.wgraph_from_coo_matrix(csr_matrix((w, (i, j)), shape=(V, V))), A)
+        # column-compressed input comes back column by column; int32 / int64 index arrays, Fortran-ordered dense input
+        csc = csc_matrix((w, (i, j)), shape=(V, V))
+        cm = sorted({(a, b) for a, b, _ in edges}, key=lambda p_: (p_[1], p_[0]))
+        one("wgraph_from_coo_matrix(csc)", f"fromcsc {gline(V, edges)}", lambda: G.wgraph_from_coo_matrix(csc), A,
+            keep_rows=[(a, b, float(A[a, b])) for a, b in cm])
+        one("wgraph_from_coo_matrix(lil)", f"fromcsr {gline(V, edges)}",
+            lambda: G.wgraph_from_coo_matrix(coo_matrix((w, (i.astype(np.int64), j.astype(np.int64))), shape=(V, V)).tolil()), A)
+        one("wgraph_from_adjacency(Fortran order)", f"fromadj {V} {V} " + frs(A.ravel().tolist()),
+            lambda: G.wgraph_from_adjacency(np.asfortranarray(A)), A)
     try:
         G.wgraph_from_coo_matrix(coo_matrix(np.ones((2, 3))))
         fails.append("wgraph_from_coo_matrix accepted a non-square matrix")
@@ -287,6 +296,19 @@ def bip_case(c):
             fails.append(f"bipartite_graph_from_adjacency: rows {rows(h)[:8]} do not reproduce the matrix")
     except Exception as ex:
         fails.append(f"bipartite_graph_from_adjacency raised {type(ex).__name__}: {ex}")
+    # bipartite_graph_from_coo_matrix keeps the stored entries (zeros, repeated positions) as rows
+    if e:
+        from scipy.sparse import coo_matrix
+        try:
+            x = coo_matrix((np.array([w for _, _, w in e], float), (np.array([a for a, _, _ in e]), np.array([b for _, b, _ in e]))),
+                           shape=(V, W))
+            h = B.bipartite_graph_from_coo_matrix(x)
+            add(f"bfromcoo {bl}", btxt(h))
+            if rows(h) != e:
+                fails.append(f"bipartite_graph_from_coo_matrix: rows {rows(h)[:8]} differ from the stored entries {e[:8]}")
+        except Exception as ex:
+            add(f"bfromcoo {bl}", errname(ex))
+            fails.append(f"bipartite_graph_from_coo_matrix raised {type(ex).__name__}: {ex} on stored entries {e[:8]}")
     # subgraph_left / subgraph_right
     valid = np.array(c["valid"], dtype=bool)
     ren = bool(c["ren"])
@@ -329,7 +351,7 @@ def bip_case(c):
 # ----------------------------------------------------------------------
 def gen_vd(rng):
     dim = rng.choice([1, 2, 2, 3])
-    ns = rng.choice([2, 3, 4, 6])
+    ns = rng.choice([1, 2, 2, 3, 4, 6])
     seeds = []
     while len(seeds) < ns:
         p = [float(rng.randrange(0, 6)) for _ in range(dim)]
@@ -340,39 +362,75 @@ def gen_vd(rng):
     return {"kind": "vd", "seeds": seeds, "samples": samples}
 
 
+def vd_pairs(S, X):
+    """the two nearest seeds of every sample as `voronoi_diagram` obtains them (argsort decides between ties)"""
+    from nipy.algorithms.graph.bipartite_graph import cross_knn
+    j = np.asarray(cross_knn(X, S, 2).edges)[:, 1]
+    return [(int(j[2 * s]), int(j[2 * s + 1])) for s in range(len(X))]
+
+
+def vdiag_line(S, X, g, add):
+    """model line of voronoi_diagram: the pairs are a parameter the model certifies, the rest is as written"""
+    pairs = vd_pairs(S, X)
+    E = int(g.E)
+    ed = [(int(a), int(b)) for a, b in np.asarray(g.edges).reshape(-1, 2).tolist()] if E else []
+    w = np.asarray(g.weights, float).ravel().tolist() if E else []
+    rows = sorted(zip(ed, w))
+    with np.errstate(all="ignore"):
+        logs = " ".join("nan" if x != x else fr(np.log(x)) for _, x in rows)
+    add(f"vdiag {mat(S)} {mat(X)} {len(pairs)} " + " ".join(f"{a} {b}" for a, b in pairs),
+        " ".join([str(int(g.V)), str(len(rows))] + [f"{a} {b}" for (a, b), _ in rows]) + " | " + logs + " | ok")
+
+
+def vd_oracle(S, X, g):
+    """the graph links exactly pairs of seeds that are the two nearest ones of some sample; Gaussian weights"""
+    V = len(S)
+    E = int(g.E)
+    ed = [(int(a), int(b)) for a, b in np.asarray(g.edges).reshape(-1, 2).tolist()] if E else []
+    w = np.asarray(g.weights, float).ravel()
+    D = ((X[:, None, :] - S[None, :, :]) ** 2).sum(2)
+    must, may = set(), set()
+    for row in D:
+        srt = np.sort(row)
+        near = [j for j in range(V) if row[j] <= srt[1]]
+        for a in near:
+            for b in near:
+                if a != b and (row[a] == srt[0] or row[b] == srt[0]):
+                    may.add((a, b))
+        if srt[0] < srt[1] and (V == 2 or srt[1] < srt[2]):
+            a, b = int(np.argsort(row)[0]), int(np.argsort(row)[1])
+            must |= {(a, b), (b, a)}
+    got = set(ed)
+    if len(got) != len(ed) or len(w) != len(ed) or np.shape(g.edges)[0] != len(ed):
+        return "voronoi_diagram: repeated edges or inconsistent arrays"
+    if not must <= got or not got <= may or any((b, a) not in got for a, b in got):
+        return (f"voronoi_diagram: edges {sorted(got)} are not the (symmetric) pairs of the two nearest seeds of "
+                f"the samples (required {sorted(must)}, admissible {sorted(may)}; seeds={S.tolist()}, samples={X.tolist()})")
+    if ed:
+        d2 = np.array([((S[a] - S[b]) ** 2).sum() for a, b in ed])
+        want = np.exp(-d2 / (2 * d2.mean()))
+        if not np.allclose(w, want, rtol=1e-12):
+            return "voronoi_diagram: weights are not the Gaussian function of the seed distances"
+    return None
+
+
 def vd_case(c, G):
     S = np.array(c["seeds"], float)
     X = np.array(c["samples"], float)
     V = len(S)
-    fails = []
+    fails, lines, impl = [], [], []
     try:
         g = G.WeightedGraph(V)
-        g.voronoi_diagram(S.copy(), X.copy())
-        ed = [(int(a), int(b)) for a, b in np.asarray(g.edges).reshape(-1, 2).tolist()]
-        w = np.asarray(g.weights, float).ravel()
-        D = ((X[:, None, :] - S[None, :, :]) ** 2).sum(2)
-        must, may = set(), set()
-        for row in D:
-            srt = np.sort(row)
-            near = [j for j in range(V) if row[j] <= srt[1]]
-            for a in near:
-                for b in near:
-                    if a != b and (row[a] == srt[0] or row[b] == srt[0]):
-                        may.add((a, b))
-            if srt[0] < srt[1] and (V == 2 or srt[1] < srt[2]):
-                a, b = int(np.argsort(row)[0]), int(np.argsort(row)[1])
-                must |= {(a, b), (b, a)}
-        got = set(ed)
-        if len(got) != len(ed) or int(g.E) != len(ed) or len(w) != len(ed):
-            fails.append("voronoi_diagram: repeated edges or inconsistent arrays")
-        elif not must <= got or not got <= may or any((b, a) not in got for a, b in got):
-            fails.append(f"voronoi_diagram: edges {sorted(got)} are not the (symmetric) pairs of the two nearest seeds of "
-                         f"the samples (required {sorted(must)}, admissible {sorted(may)})")
-        elif ed:
-            d2 = np.array([((S[a] - S[b]) ** 2).sum() for a, b in ed])
-            want = np.exp(-d2 / (2 * d2.mean()))
-            if not np.allclose(w, want, rtol=1e-12):
-                fails.append("voronoi_diagram: weights are not the Gaussian function of the seed distances")
+        with np.errstate(all="ignore"):
+            g.voronoi_diagram(S.copy(), X.copy())
+        if V == 1:
+            if int(g.E) != 0 or np.size(g.weights) != 0:
+                fails.append("voronoi_diagram with a single seed has edges")
+        else:
+            vdiag_line(S, X, g, lambda l, o: (lines.append(l), impl.append(o)))
+            msg = vd_oracle(S, X, g)
+            if msg:
+                fails.append(msg)
     except Exception as e:
         fails.append(f"voronoi_diagram raised {type(e).__name__}: {e} (seeds={c['seeds']}, {len(X)} samples)")
     for badS, badX in ((S[:-1], X), (S, np.zeros((3, S.shape[1] + 1)))):
@@ -383,7 +441,7 @@ def vd_case(c, G):
             pass
         except Exception:
             pass
-    return {"lines": [], "impl": [], "oracle": fails[0] if fails else None, "nontrivial": len(X) >= 1,
+    return {"lines": lines, "impl": impl, "oracle": fails[0] if fails else None, "nontrivial": len(X) >= 1,
             "tags": ["voronoi_diagram"], "mutated": None}
 
 
